@@ -682,8 +682,18 @@ func (e *Engine) solve(o *Oblig, dir string, timeoutS int, prelude string) {
 	best := run(jobs)
 	if best.v != "unsat" && best.v != "sat" && timeoutS > quick {
 		jobs = nil
-		for _, sp := range solvers {
-			jobs = append(jobs, job{sp, file, sp.name, timeoutS, true})
+		if o.Cover {
+			// a vacuity guard only needs a refutation (unsat) to fail; contradictions show up
+			// fast, so two solvers with half the budget are enough
+			ct := timeoutS / 2
+			if ct < quick {
+				ct = quick
+			}
+			jobs = append(jobs, job{solvers[0], file, solvers[0].name, ct, true}, job{solvers[1], file, solvers[1].name, ct, true})
+		} else {
+			for _, sp := range solvers {
+				jobs = append(jobs, job{sp, file, sp.name, timeoutS, true})
+			}
 		}
 		if !o.Cover {
 			adj := filepath.Join(dir, sanitize(o.ID)+".adj.smt2")
